@@ -41,6 +41,7 @@ fn cfg_one(thorough: bool) -> Cfg {
         audit_mod: if thorough { 40 } else { 30 },
         audit_cap: if thorough { 4000 } else { 400 },
         batch: if thorough { 3 } else { 2 },
+        d_no_dc: false,
     }
 }
 
@@ -65,6 +66,7 @@ fn cfg_two(thorough: bool) -> Cfg {
         audit_mod: 50,
         audit_cap: 300,
         batch: if thorough { 3 } else { 2 },
+        d_no_dc: false,
     }
 }
 
@@ -87,6 +89,8 @@ fn cfg_edge() -> Cfg {
         audit_mod: 20,
         audit_cap: 200,
         batch: 3,
+        // D joins and leaves WITHOUT datacenter information: its replicas are in `all` but in no per-DC list
+        d_no_dc: true,
     }
 }
 
